@@ -11,6 +11,7 @@ package rules
 
 import (
 	"fmt"
+	"go/token"
 	"go/types"
 	"strings"
 
@@ -207,4 +208,92 @@ func RuleN3(c *Ctx) {
 	}
 	c.Check(len(bad) == 0, "N3", key, fn.Pos(), strings.Join(bad, "; "), "(X, Y, Z) -> (X*inv(Z), Y*inv(Z), 1), nil; Z = 1 -> unchanged; Z = 0 -> error, element untouched")
 	c.FloorN("N3", 1, 1, "cases folded")
+}
+
+// RuleU5: the batch encoders and the batch map-to-field take their inverses from fp.BatchInvert and are checked on
+// the assumption that position i of its result is the inverse of position i of its argument (zero for zero). That
+// is what gnark-crypto's BatchInvert computes for the whole slice it is given; U5 requires every return of
+// fp.BatchInvert to be that call on the whole parameter. A routine that assembles the result itself (chunks,
+// workers, windows) needs a completeness argument this rule does not have: it is reported as undecided, naming the
+// return.
+func RuleU5(c *Ctx) {
+	c.Rule("U5", "fp.BatchInvert hands back, on every return, gnark-crypto's BatchInvert of its whole parameter (position i of the result is the inverse of position i of the input); a result assembled any other way is not decided")
+	fn := c.P.Fn("bandersnatch/fp", "", "BatchInvert")
+	if fn == nil {
+		c.Unresolved("U5", "bandersnatch/fp.BatchInvert")
+		return
+	}
+	c.Saw(core.FnName(fn))
+	n := 0
+	if len(fn.Params) != 1 {
+		c.Und("U5", "fp.BatchInvert:signature", fn.Pos(), "fp.BatchInvert no longer takes exactly one slice")
+		return
+	}
+	whole := func(v ssa.Value) bool {
+		v = core.StripConv(v)
+		for d := 0; d < 3; d++ {
+			if v == ssa.Value(fn.Params[0]) {
+				return true
+			}
+			// the parameter spilled to a cell because a closure captures it
+			if ld, isLd := v.(*ssa.UnOp); isLd && ld.Op == token.MUL {
+				if cell, isCell := ld.X.(*ssa.Alloc); isCell {
+					if sts := storesInto(cell); len(sts) == 1 && sts[0].Val == ssa.Value(fn.Params[0]) {
+						return true
+					}
+				}
+			}
+			sl, ok := v.(*ssa.Slice)
+			if !ok {
+				return false
+			}
+			if sl.Low != nil {
+				if k, isK := core.ConstInt(sl.Low); !isK || k != 0 {
+					return false
+				}
+			}
+			if sl.High != nil {
+				call, isCall := sl.High.(*ssa.Call)
+				if !isCall {
+					return false
+				}
+				if b, isB := call.Call.Value.(*ssa.Builtin); !isB || b.Name() != "len" || core.StripConv(call.Call.Args[0]) != ssa.Value(fn.Params[0]) {
+					return false
+				}
+			}
+			v = core.StripConv(sl.X)
+		}
+		return false
+	}
+	for _, b := range fn.Blocks {
+		if b == nil {
+			continue
+		}
+		ret := retOfBlock(b)
+		if ret == nil || len(ret.Results) != 1 {
+			continue
+		}
+		n++
+		key := fmt.Sprintf("fp.BatchInvert:return#%d", n)
+		call, isCall := core.StripConv(ret.Results[0]).(*ssa.Call)
+		var callee *ssa.Function
+		if isCall {
+			callee = core.Callee(call.Common())
+		}
+		switch {
+		case callee != nil && callee.Name() == "BatchInvert" && callee.Pkg != nil && strings.HasSuffix(callee.Pkg.Pkg.Path(), "bls12-381/fr") && len(call.Call.Args) == 1 && whole(call.Call.Args[0]):
+			c.OK("U5", key, ret.Pos(), "returns "+callee.String()+" of the whole parameter")
+		default:
+			c.Und("U5", key, ret.Pos(), "this return of fp.BatchInvert is not gnark-crypto's BatchInvert of the whole parameter; that every position of the slice it returns holds the inverse of the same position of the input (no position left at its zero value) cannot be decided by this rule")
+		}
+	}
+	c.FloorN("U5", 1, n, "returns of fp.BatchInvert")
+}
+
+func retOfBlock(b *ssa.BasicBlock) *ssa.Return {
+	if len(b.Instrs) == 0 {
+		return nil
+	}
+	r, _ := b.Instrs[len(b.Instrs)-1].(*ssa.Return)
+	return r
 }
